@@ -152,6 +152,7 @@ func (r *fakeReg) GetNamespacePartInfo(ns string, pid int) (*cluster.PartitionMe
 	s := r.s
 	fromBalancerWait := callerIs(".addNodeToNamespaceAndWaitReady")
 	s.mu.Lock()
+	s.lastNS = ns
 	defer s.mu.Unlock()
 	if p := s.partLocked(ns, pid); p != nil && fromBalancerWait {
 		now := time.Now()
@@ -176,6 +177,7 @@ func (r *fakeReg) GetNamespacePartInfo(ns string, pid int) (*cluster.PartitionMe
 func (r *fakeReg) GetRemoteNamespaceReplicaInfo(ns string, pid int) (*cluster.PartitionReplicaInfo, error) {
 	s := r.s
 	s.mu.Lock()
+	s.lastNS = ns
 	defer s.mu.Unlock()
 	if s.regDownLocked() {
 		return nil, errRegDown
@@ -199,6 +201,7 @@ func (r *fakeReg) GetRemoteNamespaceReplicaInfo(ns string, pid int) (*cluster.Pa
 func (r *fakeReg) GetNamespaceMetaInfo(ns string) (cluster.NamespaceMetaInfo, error) {
 	s := r.s
 	s.mu.Lock()
+	s.lastNS = ns
 	defer s.mu.Unlock()
 	if s.regDownLocked() {
 		return cluster.NamespaceMetaInfo{}, errRegDown
@@ -242,10 +245,33 @@ func callerIs(suffix string) bool {
 	}
 }
 
+func callerDeep(suffix string) bool {
+	var pcs [16]uintptr
+	n := runtime.Callers(3, pcs[:])
+	fr := runtime.CallersFrames(pcs[:n])
+	for {
+		f, more := fr.Next()
+		if strings.HasSuffix(f.Function, suffix) {
+			return true
+		}
+		if !more {
+			return false
+		}
+	}
+}
+
 func (r *fakeReg) GetAllNamespaces() (map[string]map[int]cluster.PartitionMetaInfo, cluster.EpochType, error) {
 	s := r.s
-	if callerIs(".getCurrentPartitionNodes") && s.wouldLayoutPanic() {
-		return nil, 0, errors.New("sim: read failed (layout computation suppressed)")
+	if callerIs(".getCurrentPartitionNodes") {
+		s.mu.Lock()
+		only := s.lastNS
+		s.mu.Unlock()
+		if callerDeep(".processRemovingNodes") {
+			only = ""
+		}
+		if s.wouldLayoutPanic(only) {
+			return nil, 0, errors.New("sim: read failed (layout computation suppressed)")
+		}
 	}
 	s.mu.Lock()
 	defer s.mu.Unlock()
@@ -429,6 +455,7 @@ func (s *coordSim) pushNodesLocked() {
 func (r *fakeReg) CreateNamespace(ns string, meta *cluster.NamespaceMetaInfo) error {
 	s := r.s
 	s.mu.Lock()
+	s.lastNS = ns
 	defer s.mu.Unlock()
 	if s.regDownLocked() {
 		return errRegDown
@@ -471,6 +498,7 @@ func (r *fakeReg) UpdateNamespaceMetaInfo(ns string, meta *cluster.NamespaceMeta
 func (r *fakeReg) CreateNamespacePartition(ns string, pid int) error {
 	s := r.s
 	s.mu.Lock()
+	s.lastNS = ns
 	defer s.mu.Unlock()
 	if s.regDownLocked() {
 		return errRegDown
@@ -490,6 +518,7 @@ func (r *fakeReg) CreateNamespacePartition(ns string, pid int) error {
 func (r *fakeReg) IsExistNamespace(ns string) (bool, error) {
 	s := r.s
 	s.mu.Lock()
+	s.lastNS = ns
 	defer s.mu.Unlock()
 	if s.regDownLocked() {
 		return false, errRegDown
@@ -520,6 +549,7 @@ func (r *fakeReg) DeleteWholeNamespace(ns string) error { return errors.New("sim
 func (r *fakeReg) UpdateNamespacePartReplicaInfo(ns string, pid int, ri *cluster.PartitionReplicaInfo, oldGen cluster.EpochType) error {
 	s := r.s
 	s.mu.Lock()
+	s.lastNS = ns
 	defer s.mu.Unlock()
 	s.seq++
 	p := s.partLocked(ns, pid)
